@@ -18,7 +18,7 @@
 From Coq Require Import String.
 From Coq Require Import NArith ZArith List Bool.
 From FV Require Import Printf.PrintIntModel Printf.PrintfModel Printf.IsoPrintf Printf.PrintfConform
-  Printf.PrintIntProofs Printf.PrintfConformProofs Printf.PrintfConformGen.
+  Printf.PrintIntProofs Printf.PrintfConformProofs Printf.PrintfConformGen Printf.PrintfFormat.
 Import ListNotations.
 Local Open Scope Z_scope.
 
@@ -45,6 +45,42 @@ Example C19_printf_conforms_examples :
   /\ frigg_printf (mk_dir (Some 3%N) [FPlus; FQuote] (WLit 4) PNone Lhh Cd) (mk_av 0 0 300 [])
      = Ok [32; 43; 52; 52]%N.                                                                                     (* " +44" *)
 Proof. repeat split; reflexivity. Qed.
+
+(* Whole format strings: a format that is a concatenation of literal text (bytes other than NUL and '%') and
+   directives of the grammar WITHOUT n$ (and %%), run with the arguments of its directives in order
+   (fmt_slots: "*", ".*", the value; a %s item names the address its string lives at in [mem]), prints the
+   literal pieces and iso_printf of every directive, in order, and consumes every argument.
+   [wf_items] = every literal piece is non-empty and maximal (no two adjacent literal items; merge_lits_same
+   shows that merging adjacent pieces changes neither the format, the arguments nor the ISO text), every directive
+   item satisfies in_grammar / fits / d_pos = None.  Formats with n$ directives: single-directive theorem above
+   plus the known finding D33 below. *)
+Theorem C19_printf_format_conforms :
+  forall (mem : memory) (its : list fitem) (cache : list N),
+    wf_items mem its ->
+    let r := run_printf mem (fmt_render its) (fmt_slots its) cache in
+    snd r = Ok tt /\ ps_out (fst r) = fmt_iso its /\ va_rest (ps_vs (fst r)) = [].
+Proof. exact printf_format_conforms. Qed.
+Print Assumptions C19_printf_format_conforms.
+
+(* non-vacuity: "[%-4s|%+.3d] %#x%% %s" with ("ab", 7, 255, "xyz") *)
+Example C19_printf_format_example :
+  let mem := [(4096, [97; 98; 0]); (8192, [120; 121; 122; 0])]%N in
+  let its := [FLit [91%N];
+              FDir (mk_dir None [FMinus] (WLit 4) PNone LNone Cs) (mk_av 0 0 0 [97; 98; 0]%N) 4096%N;
+              FLit [124%N];
+              FDir (mk_dir None [FPlus] WNone (PLit 3) LNone Cd) (mk_av 0 0 7 []) 0%N;
+              FLit [93; 32]%N;
+              FDir (mk_dir None [FHash] WNone PNone LNone Cx) (mk_av 0 0 255 []) 0%N;
+              FDir (mk_dir None [] WNone PNone LNone Cpct) (mk_av 0 0 0 []) 0%N;
+              FLit [32%N];
+              FDir (mk_dir None [] WNone PNone LNone Cs) (mk_av 0 0 0 [120; 121; 122; 0]%N) 8192%N] in
+  wf_items mem its
+  /\ fmt_iso its = [91; 97; 98; 32; 32; 124; 43; 48; 48; 55; 93; 32; 48; 120; 102; 102; 37; 32; 120; 121; 122]%N.
+Proof.
+  split; [|reflexivity].
+  cbn [wf_items item_ok]. repeat split; try reflexivity; try discriminate; try (intros; discriminate);
+    repeat constructor; try discriminate.
+Qed.
 
 (* D33 (known): "%2$d %1$ld" with (long 6000000000, int 7): ISO/POSIX print "7 6000000000"; frigg fetches
    the first argument with the type of the directive that skips over it (int) *)
